@@ -1036,6 +1036,17 @@ pub mod verif {
     }
 }
 
+/// Verification hook (additive, off unless `--cfg rustrtc_verif`): emit one SCTP control
+/// chunk (e.g. ABORT / SHUTDOWN) towards the peer with the association's current peer tag,
+/// exactly as a misbehaving / terminating remote stack would.
+#[cfg(rustrtc_verif)]
+impl SctpTransport {
+    pub async fn verif_send_chunk(&self, chunk_type: u8, flags: u8, body: Bytes) -> Result<()> {
+        let tag = self.inner.remote_verification_tag.load(Ordering::SeqCst);
+        self.inner.send_chunk(chunk_type, flags, body, tag).await
+    }
+}
+
 impl Drop for SctpTransport {
     fn drop(&mut self) {
         *self.inner.state.lock() = SctpState::Closed;
